@@ -26,13 +26,12 @@ def b_len(reg, eng, st, args, kwargs, node):
     if k in ("str", "seq"):
         return [(st, vint(z3.Length(v.x)))]
     if k in ("bag", "set", "dict"):
-        # only emptiness of len(...) is modelled: len is an uninterpreted non-negative int with len==0 <=> empty
+        # only emptiness of len(...) is modelled: 0 if empty, else 1 + |u(arr)| for an uninterpreted u
         arr = v.x if k != "dict" else v.x[0]
-        n = z3.Int(fresh_name("len"))
         x = z3.Const(fresh_name("e"), arr.sort().domain())
-        st.assume(n >= 0)
-        st.assume((n == 0) == z3.Not(z3.Exists([x], z3.Select(arr, x))))
-        return [(st, vint(n))]
+        u = z3.Function("ulen_" + str(arr.sort()).replace(" ", "").replace("(", "_").replace(")", "_").replace(",", "_"), arr.sort(), z3.IntSort())
+        ua = u(arr)
+        return [(st, vint(z3.If(z3.Exists([x], z3.Select(arr, x)), 1 + z3.If(ua >= 0, ua, -ua), z3.IntVal(0))))]
     raise OutOfSubset(f"len of {v.t}")
 
 
@@ -43,7 +42,7 @@ def b_set(reg, eng, st, args, kwargs, node):
     if v.t[0] == "str":
         # set("abc") is the set of the string's characters
         c = z3.Const(fresh_name("c"), z3.StringSort())
-        return [(st, V(("set", ("str",)), z3.Lambda([c], z3.And(z3.Length(c) == 1, z3.Contains(v.x, c)))))]
+        return [(st, V(("set", ("str",)), eng.mkset(st, [c], z3.And(z3.Length(c) == 1, z3.Contains(v.x, c)))))]
     if v.t[0] == "list" and not v.x:
         return [(st, V(("emptyset",), None))]
     m = _sym_coll(eng, v)
@@ -133,7 +132,7 @@ def b_map(reg, eng, st, args, kwargs, node):
     fx = r[0][1]
     y = z3.Const(fresh_name("y"), sort_of(fx.t))
     body = z3.Exists(reg.consts_of(x), z3.And(z3.Select(m.x, to_term(x)), y == to_term(fx)))
-    return [(st, V(("bag", fx.t), z3.Lambda([y], body)))]
+    return [(st, V(("bag", fx.t), eng.mkset(st, [y], body)))]
 
 
 def b_filter(reg, eng, st, args, kwargs, node):
@@ -196,7 +195,7 @@ def b_product(reg, eng, st, args, kwargs, node):
     from .vals import tuple_sort
     s, mk, accs = tuple_sort(t[1])
     q = z3.Const(fresh_name("q"), s)
-    return [(st, V(("bag", t), z3.Lambda([q], z3.And(z3.Select(ma.x, accs[0](q)), z3.Select(mb.x, accs[1](q))))))]
+    return [(st, V(("bag", t), eng.mkset(st, [q], z3.And(z3.Select(ma.x, accs[0](q)), z3.Select(mb.x, accs[1](q))))))]
 
 
 def b_dict(reg, eng, st, args, kwargs, node):
@@ -229,6 +228,14 @@ def b_replace(reg, eng, st, args, kwargs, node):
     return [(st, new)]
 
 
+def b_fields(reg, eng, st, args, kwargs, node):
+    """dataclasses.fields on a modelled record: its declared fields in order."""
+    (o,) = args
+    if o.t[0] != "obj":
+        raise OutOfSubset("fields() of non-record")
+    return [(st, V(("list",), [V(("obj", "Field"), {"name": vstr(f)}) for f in OBJ_LAYOUT[o.t[1]]]))]
+
+
 def b_hasattr(reg, eng, st, args, kwargs, node):
     raise OutOfSubset("hasattr")
 
@@ -237,7 +244,7 @@ BUILTINS = {
     "len": b_len, "set": b_set, "list": b_list, "tuple": b_tuple, "sorted": b_sorted, "any": b_any, "all": b_all,
     "map": b_map, "filter": b_filter, "isinstance": b_isinstance, "str": b_str, "bool": b_bool, "zip": b_zip,
     "product": b_product, "dict": b_dict, "defaultdict": b_defaultdict, "cast": b_cast, "replace": b_replace,
-    "hasattr": b_hasattr,
+    "hasattr": b_hasattr, "fields": b_fields,
 }
 
 
@@ -318,7 +325,7 @@ def m_extend(reg, eng, st, recv, args, kwargs, node, rexpr):
     if recv.t[0] in ("bag", "set"):
         m = coerce(o, recv.t) if o.t[0] == "list" else _sym_coll(eng, o)
         x = z3.Const(fresh_name("e"), sort_of(recv.t[1]))
-        _store(eng, st, rexpr, V(recv.t, z3.Lambda([x], z3.Or(z3.Select(recv.x, x), z3.Select(m.x, x)))), recv)
+        _store(eng, st, rexpr, V(recv.t, eng.mkset(st, [x], z3.Or(z3.Select(recv.x, x), z3.Select(m.x, x)))), recv)
         return [(st, VNONE)]
     if recv.t[0] == "seq":
         _store(eng, st, rexpr, V(recv.t, z3.Concat(recv.x, coerce(o, recv.t).x)), recv)
@@ -394,7 +401,7 @@ def m_update(reg, eng, st, recv, args, kwargs, node, rexpr):
         recv = _typed_recv(eng, recv, rexpr, fresh(m.t[1], "dummy"))
     m = coerce(o, recv.t) if o.t[0] in ("list", "emptyset") and False else (eng.typed(o, recv.t) if o.t[0] in ("list", "emptyset") else _sym_coll(eng, o))
     x = z3.Const(fresh_name("e"), sort_of(recv.t[1]))
-    _store(eng, st, rexpr, V(recv.t, z3.Lambda([x], z3.Or(z3.Select(recv.x, x), z3.Select(m.x, x)))), recv)
+    _store(eng, st, rexpr, V(recv.t, eng.mkset(st, [x], z3.Or(z3.Select(recv.x, x), z3.Select(m.x, x)))), recv)
     return [(st, VNONE)]
 
 
@@ -422,14 +429,14 @@ def m_intersection(reg, eng, st, recv, args, kwargs, node, rexpr):
     (o,) = args
     m = _sym_coll(eng, o)
     x = z3.Const(fresh_name("e"), sort_of(recv.t[1]))
-    return [(st, V(recv.t, z3.Lambda([x], z3.And(z3.Select(recv.x, x), z3.Select(m.x, x)))))]
+    return [(st, V(recv.t, eng.mkset(st, [x], z3.And(z3.Select(recv.x, x), z3.Select(m.x, x)))))]
 
 
 def m_union(reg, eng, st, recv, args, kwargs, node, rexpr):
     (o,) = args
     m = _sym_coll(eng, o)
     x = z3.Const(fresh_name("e"), sort_of(recv.t[1]))
-    return [(st, V(recv.t, z3.Lambda([x], z3.Or(z3.Select(recv.x, x), z3.Select(m.x, x)))))]
+    return [(st, V(recv.t, eng.mkset(st, [x], z3.Or(z3.Select(recv.x, x), z3.Select(m.x, x)))))]
 
 
 # ------------------------------------------------------------------ dict
@@ -438,7 +445,7 @@ def m_items(reg, eng, st, recv, args, kwargs, node, rexpr):
     t = ("tuple", (recv.t[1], recv.t[2]))
     s, mk, accs = tuple_sort(t[1])
     q = z3.Const(fresh_name("kv"), s)
-    return [(st, V(("bag", t), z3.Lambda([q], z3.And(z3.Select(recv.x[0], accs[0](q)), z3.Select(recv.x[1], accs[0](q)) == accs[1](q)))))]
+    return [(st, V(("bag", t), eng.mkset(st, [q], z3.And(z3.Select(recv.x[0], accs[0](q)), z3.Select(recv.x[1], accs[0](q)) == accs[1](q)))))]
 
 
 def m_keys(reg, eng, st, recv, args, kwargs, node, rexpr):
@@ -448,7 +455,7 @@ def m_keys(reg, eng, st, recv, args, kwargs, node, rexpr):
 def m_values(reg, eng, st, recv, args, kwargs, node, rexpr):
     y = z3.Const(fresh_name("v"), sort_of(recv.t[2]))
     k = z3.Const(fresh_name("k"), sort_of(recv.t[1]))
-    return [(st, V(("bag", recv.t[2]), z3.Lambda([y], z3.Exists([k], z3.And(z3.Select(recv.x[0], k), z3.Select(recv.x[1], k) == y)))))]
+    return [(st, V(("bag", recv.t[2]), eng.mkset(st, [y], z3.Exists([k], z3.And(z3.Select(recv.x[0], k), z3.Select(recv.x[1], k) == y)))))]
 
 
 def m_get(reg, eng, st, recv, args, kwargs, node, rexpr):
